@@ -1,0 +1,12 @@
+//go:build verif
+
+package proxy
+
+import "time"
+
+// VerifSetTimings shrinks the wrapper's timing constants (verification tooling only).
+func VerifSetTimings(check, waitResp, startErr time.Duration) {
+	statusCheckInterval = check
+	waitResponseTimeout = waitResp
+	startErrTimeout = startErr
+}
